@@ -12,6 +12,9 @@ CHECKS = {
                   "so the round trip holds for every value within the stated length/digit bounds."),
     "C02": ("2 (C02)", "Every frame produced by Codec.encode (+utf-8, as send_msg does) and by send_msg itself for symbolic field values up "
                   "to code point 0x7ff is passed through an independent reference framer; exhausted per cell."),
+    "C03": ("2 (C03)", "The real socket_read_task is driven over streams of 2-3 encoder-produced frames split at solver-chosen offsets "
+                  "(every 1-cut partition, 2-cut partitions, the all-1-byte partition, marker-free symbolic garbage around frames); "
+                  "delivered frames / journal rows must equal the frames sent."),
     "C10": ("2 (C10)", "Codec.decode(silent=True) on fully symbolic buffers, grammar-shaped buffers with symbolic field contents over all 256 "
                   "byte values, and every single-byte substitution/deletion/insertion of valid frames; live-reader cells drive the real "
                   "socket_read_task over malformed input followed by valid frames."),
